@@ -32,6 +32,11 @@ EDITS = [
  ("setu64.rs", "contains heap drops the width test", r"(pub fn contains[\s\S]*?)if compute_array_bits\(e\) < s\.bits \{", r"\g<1>if compute_array_bits(e) + 1 < s.bits {"),
  ("setu64.rs", "contains big placeholder test", r"(pub fn contains[\s\S]*?)if e == s\.bits \{\s*return false;", r"\g<1>if e == s.bits + 1 {\n                    return false;"),
  ("setu64.rs", "contains big forgets the stand-in for 0", r"(pub fn contains[\s\S]*?)let e = if e == 0 \{ s\.bits \} else \{ e \};", r"\g<1>let e = if e == 0 { e } else { e };"),
+ ("setu64.rs", "remove dense clears the wrong bit", r"\*bits = \*bits & !whichbit;", "*bits = *bits & !(whichbit << 1);"),
+ ("setu64.rs", "remove dense forgets the count", r"if present \{\s*\*sz = \*sz - 1;\s*\}", "if present {\n                    }"),
+ ("setu64.rs", "remove heap keeps an emptied bucket", r"if newa == key << s\.bits \{", "if newa == (key << s.bits) + 1 {"),
+ ("setu64.rs", "remove heap count", r"(let newa = a\[idx\] & !\(1 << offset\);\s*)s\.sz -= 1;", r"\g<1>s.sz -= 2;"),
+ ("setu64.rs", "remove big placeholder", r"(pub fn remove[\s\S]*?)let e = if e == 0 \{ s\.bits \} else \{ e \};", r"\g<1>let e = if e == 0 { e } else { e };"),
  ("setu64.rs", "BITSPLITS row", r"&\[25, 12, 12, 12\]", "&[26, 12, 12, 12]"),
  ("setu32.rs", "log_2 width", r"(fn log_2\(x: u32\)[\s\S]*?)num_bits::<u32>\(\) as u32 - x\.leading_zeros\(\)", r"\g<1>num_bits::<u32>() as u32 + 1 - x.leading_zeros()"),
  ("setu32.rs", "compute_array_bits large threshold", r"else if log_2\(mx\) > 62 \{", "else if log_2(mx) > 31 {"),
@@ -53,7 +58,7 @@ def main():
     shutil.copytree("/repo/src", W + "/repo/src")
     sh(f"rsync -a --exclude .lake/build/bin {V}/lean/ {W}/lean/")
     env = dict(os.environ, VERIF_REPO=W + "/repo", VERIF_GEN_OUT=W + "/lean/TinysetModel/Generated")
-    target = "TinysetModel.Proofs.Consts TinysetModel.Proofs.Fns TinysetModel.Proofs.Loops TinysetModel.Proofs.ContainsSrc TinysetModel.Proofs.Fits"
+    target = "TinysetModel.Proofs.Consts TinysetModel.Proofs.Fns TinysetModel.Proofs.Loops TinysetModel.Proofs.ContainsSrc TinysetModel.Proofs.RemoveSrc TinysetModel.Proofs.Fits"
     rc, out = sh(f"python3 {V}/tools/gen_consts.py && lake build {target}", cwd=W + "/lean", env=env)
     if rc != 0:
         print("baseline does not build:", out[-800:]); return 2
